@@ -135,8 +135,8 @@ func c13Facts(f *factSet, repo string) error {
 	// operator assignment or ++/-- whose target is a field named `state` (or `*s` inside a method of
 	// *state), an atomic call on such a field outside state.go, and any atomic call in state.go that
 	// is not a Load or a CompareAndSwap
-	direct := 0
-	var where []string
+	direct, nonFlag := 0, 0
+	var where, nonFlagWhere []string
 	files, _ := filepath.Glob(repo + "/c2/*.go")
 	for _, fn := range files {
 		if strings.HasSuffix(fn, "_test.go") || strings.Contains(filepath.Base(fn), "zz_verif") {
@@ -147,6 +147,14 @@ func c13Facts(f *factSet, repo string) error {
 			return err
 		}
 		inState := filepath.Base(fn) == "state.go"
+		// func (x *T) stateSet(v uint32) { x.state.Set(v) } / stateUnset: function -> parameter name
+		forwarderParam := map[string]string{}
+		for _, d := range af.Decls {
+			if fd, ok := d.(*ast.FuncDecl); ok && (fd.Name.Name == "stateSet" || fd.Name.Name == "stateUnset") && fd.Type.Params != nil &&
+				len(fd.Type.Params.List) == 1 && len(fd.Type.Params.List[0].Names) == 1 && fd.Body != nil && len(fd.Body.List) == 1 {
+				forwarderParam[fd.Name.Name] = fd.Type.Params.List[0].Names[0].Name
+			}
+		}
 		isStateField := func(e ast.Expr) bool {
 			for {
 				switch x := e.(type) {
@@ -196,6 +204,25 @@ func c13Facts(f *factSet, repo string) error {
 				if !ok {
 					return true
 				}
+				// the flag operations are only ever given flag constants (state...), alone or or-ed: a
+				// computed mask could reach into the group half of the word
+				if m := se.Sel.Name; (m == "Set" || m == "Unset" || m == "trySet" || m == "tryUnset" || m == "stateSet" || m == "stateUnset") && len(x.Args) == 1 {
+					onState := m == "stateSet" || m == "stateUnset" // the forwarding methods of Session / proxyClient (interface connHost)
+					switch r := se.X.(type) {
+					case *ast.SelectorExpr:
+						onState = onState || r.Sel.Name == "state"
+					case *ast.Ident:
+						onState = onState || (inState && r.Name == "s")
+					}
+					// the forwarders themselves pass their own parameter on
+					if id, ok := x.Args[0].(*ast.Ident); ok && forwarderParam[enclosing(af, x.Pos())] == id.Name {
+						onState = false
+					}
+					if onState && !flagConstExpr(x.Args[0]) {
+						nonFlag++
+						nonFlagWhere = append(nonFlagWhere, fs.Position(x.Pos()).String())
+					}
+				}
 				id, ok := se.X.(*ast.Ident)
 				if !ok || id.Name != "atomic" {
 					return true
@@ -218,11 +245,39 @@ func c13Facts(f *factSet, repo string) error {
 		})
 	}
 	f.Nat("c13DirectStateWrites", uint64(direct))
+	f.Nat("c13NonConstantFlagMasks", uint64(nonFlag))
+	for i := range nonFlagWhere {
+		nonFlagWhere[i] = strconv.Quote(strings.TrimPrefix(nonFlagWhere[i], repo+"/"))
+	}
+	f.Raw("c13NonConstantFlagMaskSites", "List String", "["+strings.Join(nonFlagWhere, ", ")+"]")
 	for i := range where {
 		where[i] = strconv.Quote(strings.TrimPrefix(where[i], repo+"/"))
 	}
 	f.Raw("c13DirectStateWriteSites", "List String", "["+strings.Join(where, ", ")+"]")
 	return nil
+}
+
+// enclosing returns the name of the function declaration that contains pos.
+func enclosing(af *ast.File, pos token.Pos) string {
+	for _, d := range af.Decls {
+		if fd, ok := d.(*ast.FuncDecl); ok && fd.Pos() <= pos && pos <= fd.End() {
+			return fd.Name.Name
+		}
+	}
+	return ""
+}
+
+// flagConstExpr: a flag constant (identifier state...), or an or / parenthesised combination of them.
+func flagConstExpr(e ast.Expr) bool {
+	switch x := e.(type) {
+	case *ast.Ident:
+		return strings.HasPrefix(x.Name, "state") && len(x.Name) > 5
+	case *ast.ParenExpr:
+		return flagConstExpr(x.X)
+	case *ast.BinaryExpr:
+		return x.Op == token.OR && flagConstExpr(x.X) && flagConstExpr(x.Y)
+	}
+	return false
 }
 
 // ---- helpers ----------------------------------------------------------------------------------
